@@ -1,6 +1,9 @@
 package main
 
-import "fmt"
+import (
+	"fmt"
+	"strings"
+)
 
 // C15 — Transfer copies everything or reports failure, and never touches the source.
 
@@ -46,6 +49,9 @@ func (c15) Gen(r *Rng, tier string, run int) *Trace {
 	}
 	if r.Bool(0.15) {
 		g.emit(Op{Obj: dst, M: "SetNoNesting", Args: []Val{vBool(true)}}, true)
+	}
+	if r.Bool(0.25) {
+		g.emit(Op{Obj: dst, M: "SetFIFO", Args: []Val{vBool(true)}}, true)
 	}
 	holder := g.addCond("holds", 1, vRef(other, dNative)) // a Condition whose expression is a stack: not a Stack
 	val := func() Val {
@@ -129,6 +135,15 @@ func (c15) AfterOp(x *Exec, task, idx int, op Op, out Outcome) {
 	}
 	now := x.w.snapshot()
 	if op.M == "Transfer" && task >= 0 {
+		if a := op.Args[0]; a.K == "ref" && int(a.I) < len(now) && x.w.objs[a.I].T == 'S' {
+			// the destination may gain elements, nothing else about it changes
+			bf, _ := splitDump(st.dumps[a.I])
+			af, _ := splitDump(now[a.I])
+			if strings.Join(bf, " ") != strings.Join(af, " ") {
+				x.fail("destination-config-changed:Transfer", fmt.Sprintf("%s changed the configuration of its destination (%s):\n before: %s\n after:  %s", op, diffFields(st.dumps[a.I], now[a.I]), st.dumps[a.I], now[a.I]))
+				return
+			}
+		}
 		if st.dumps[op.Obj] != now[op.Obj] {
 			x.fail("source-changed:Transfer", fmt.Sprintf("%s changed its source:\n before: %s\n after:  %s", op, st.dumps[op.Obj], now[op.Obj]))
 			return
